@@ -12,6 +12,7 @@ import glob
 import io
 import logging
 import os
+import random
 import shutil
 import struct
 import tempfile
@@ -174,7 +175,7 @@ def _compare(r, label, A, t1, B, mode="save", only=None, ignore=()):
 
 
 def _fresh_dir(tmp):
-    d = os.path.join(tmp, "d")
+    d = os.path.join(tmp, "Dump dir")          # upper case and a space in the path of every dump
     shutil.rmtree(d, ignore_errors=True)
     os.makedirs(d)
     return d
@@ -348,6 +349,31 @@ def ttx_and_feature_sources(tier, rnd):
             except Exception as e:
                 r.case(_rel(p))
                 r.fail("%s: TTX round trip raised %s: %s" % (_rel(p), type(e).__name__, str(e)[:200]))
+            if p.endswith(".fea"):
+                # the same font with lookup debugging information ('Debg') for SOME of its lookups: the
+                # dump is decorated with comments, every lookup must still be there
+                drop_seed = rnd.random()
+
+                def make_debug():
+                    A = TTFont(recalcTimestamp=False)
+                    A.setGlyphOrder(list(_FEA_GLYPHS))
+                    addOpenTypeFeatures(A, p, debug=True)
+                    if "Debg" in A:
+                        from fontTools.feaLib.lookupDebugInfo import LOOKUP_DEBUG_INFO_KEY
+                        rr = random.Random(drop_seed)
+                        for table in A["Debg"].data.get(LOOKUP_DEBUG_INFO_KEY, {}).values():
+                            for k in sorted(table):
+                                if rr.random() < 0.5:
+                                    del table[k]
+                    return A
+                try:
+                    _roundtrip(r, _rel(p) + " +Debg", make_debug, tmp)
+                    r.case(_rel(p) + " +Debg")
+                except NotAFont:
+                    pass
+                except Exception as e:
+                    r.case(_rel(p) + " +Debg")
+                    r.fail("%s with partial lookup debug info: TTX round trip raised %s: %s" % (_rel(p), type(e).__name__, str(e)[:200]))
     finally:
         shutil.rmtree(tmp, ignore_errors=True)
     r.sample({"sources_used": r.evaluations, "sources_skipped_not_a_font": skipped})
@@ -937,6 +963,10 @@ def dump_option_matrix(tier, rnd):
                 extra["c%03d" % i] = _composite([{"glyphName": "A", "x": i, "y": -i, "flags": 4, "transform": m}])
         extra["Aa"] = _simple_glyph([(0, 0), (0, 9), (9, 9)])
         extra["aA"] = _simple_glyph([(0, 0), (0, 8), (8, 8)])          # file names that differ in case only
+        extra["q*r"] = _simple_glyph([(0, 0), (0, 7), (7, 7)])
+        extra["q?r"] = _simple_glyph([(0, 0), (0, 6), (6, 6)])         # names that are the same after replacing illegal characters
+        extra["A_"] = _simple_glyph([(0, 0), (0, 5), (5, 5)])
+        extra["a__"] = _simple_glyph([(0, 0), (0, 4), (4, 4)])         # 'A' is written as 'A_', 'A_' as 'A__'
         return _build_ttf(extra, fpgm=progs[280][1], prep=progs[290][1], cvt=[1, 2, 3])
 
     try:
